@@ -50,6 +50,29 @@ def bar2():
     return b
 
 
+def bar_rest():
+    """a 3/4 bar in G that ends with a rest"""
+    b = Bar("G", (3, 4))
+    b.place_notes("D", 4)
+    b.place_rest(2)
+    return b
+
+
+def track_rest():
+    t = Track()
+    t.add_bar(bar_rest())
+    t.add_bar(bar_rest())
+    return t
+
+
+def track_mixed():
+    """a bar that ends with a rest, followed by a bar in another meter and key"""
+    t = Track()
+    t.add_bar(bar_rest())
+    t.add_bar(bar2())
+    return t
+
+
 def track2(instr=None):
     t = Track(instr)
     t.add_bar(bar2())
@@ -126,10 +149,10 @@ GLOBAL = {
     "max_distance": lambda: [4],
     "seconds": lambda: [0.0],
     "control": lambda: [7],
-    "bar": lambda: [bar2()],
+    "bar": lambda: [bar2(), bar_rest()],
     "bars": lambda: [[bar2(), bar2()]],
     "channels": lambda: [[1, 2]],
-    "track": lambda: [track2()],
+    "track": lambda: [track2(), track_rest(), track_mixed()],
     "tracks": lambda: [[track2(), track2()]],
     "composition": lambda: [comp2()],
     "nc": lambda: [NoteContainer(["C", "E"])],
@@ -151,6 +174,9 @@ OWNER = {
     ("core.intervals", "start_note"): lambda: ["E"],
     ("core.intervals", "interval"): lambda: [2],
     ("core.keys", "accidentals"): lambda: [0],
+    # roots outside the key: what a chord on them is must not depend on whether the key's chords were asked before
+    ("core.chords", "note"): lambda: ["C", "Eb", "F#"],
+    ("core.chords", "key"): lambda: ["C", "G", "a"],
     ("core.chords", "chord"): lambda: [["C", "E", "G"], ["C", "E", "G", "B"], ["C", "E", "G", "B", "D"],
                                        ["C", "E", "G", "B", "D", "F"], ["C", "E", "G", "B", "D", "F", "A"],
                                        ["C", "E", "G", "Bb", "D", "F", "A", "C#"], [], ["C"], ["C", "E"]],
